@@ -1,4 +1,5 @@
 import ElkVerif.Model.Mini.Eval
+import ElkVerif.Proofs.MiniMono
 /-!
 # C14 — Structured control flow follows its reference semantics
 
@@ -140,6 +141,18 @@ theorem while_step (defs : List Def) (n : Nat) (env env' : Env) (s s1 s2 : St) (
     (hb : execBlock defs n env s1 body = (.val v, env', s2)) :
     execStmt defs (n + 1) env s (.while lbl c body) = execStmt defs n env s2 (.while lbl c body) := by
   simp [execStmt, hc, ht, hb]
+
+/-- **The reference semantics is well defined**: once a program finishes within some fuel
+(any outcome other than `timeout`), every larger fuel gives the same outcome, store and printed
+lines. "The trace the reference interpreter prescribes" is therefore the trace at any
+sufficiently large fuel; the evaluator being a function, it is unique (determinism). -/
+theorem fuel_monotone (p : Prog) (n k : Nat) (h : (runProg n p).1.isTimeout = false) :
+    runProg (n + k) p = runProg n p := by
+  unfold runProg at h ⊢
+  have := execBlock_mono p.defs n k [] {} p.main (by
+    rcases hb : execBlock p.defs n [] {} p.main with ⟨o, e, s⟩
+    rw [hb] at h; exact h)
+  rw [this]
 
 /-- non-vacuity: a concrete nesting — throw inside `do` inside a loop, caught by the second
 clause, `finally` printing, then a labelled `break` out of the outer loop. -/
